@@ -294,7 +294,13 @@ func (c *Cluster) Running() []*Member {
 }
 
 // Signature summarises one member's local view: members and routing table.
-func (c *Cluster) LocalView(m *Member) (string, error) {
+func (c *Cluster) LocalView(m *Member) (v string, err error) {
+	defer func() {
+		// a member that has not received its first routing table yet has nil owner lists
+		if r := recover(); r != nil {
+			v, err = "uninitialised", fmt.Errorf("routing not initialised: %v", r)
+		}
+	}()
 	rt := m.DB.VerifLocalRouting()
 	ids := make([]uint64, 0, len(rt))
 	for id := range rt {
@@ -330,7 +336,10 @@ func (c *Cluster) Stable() (bool, string) {
 		if len(mem) != len(run) {
 			return false, fmt.Sprintf("m%d sees %d members, want %d", m.Idx, len(mem), len(run))
 		}
-		v, _ := c.LocalView(m)
+		v, verr := c.LocalView(m)
+		if verr != nil {
+			return false, verr.Error()
+		}
 		if i == 0 {
 			first = v
 		} else if v != first {
